@@ -65,16 +65,13 @@ impl Polygon {
     /// El lado que empieza en el último vértice continua en el vértice inicial
     pub fn edge_vertices(&self, vertexname: &str) -> Option<[&Point2; 2]> {
         let num_vertex: usize = vertexname
-            .strip_prefix('V')
-            .map_or_else(
-                || panic!("Vértice {} desconocido de polígono", vertexname),
-                str::parse::<usize>,
-            )
+            .strip_prefix('V')?
+            .parse::<usize>()
             .ok()?
-            - 1;
+            .checked_sub(1)?;
         Some([
-            &self.0[num_vertex],
-            &self.0[(num_vertex + 1) % self.0.len()],
+            self.0.get(num_vertex)?,
+            self.0.get((num_vertex + 1) % self.0.len())?,
         ])
     }
 
